@@ -5,6 +5,7 @@ import (
 	"math"
 	"sort"
 	"strings"
+	"unicode/utf8"
 
 	at "github.com/DanielSvub/anytype"
 	"pgregory.net/rapid"
@@ -956,7 +957,7 @@ func sortDomain(es []mval) bool {
 
 // ---- program generators ---------------------------------------------------------
 
-var keyPool = []string{"", "a", "b", "c", "a.b", "#1", "k\"q", "line\nbreak", "ключ", "😀", strings.Repeat("long", 20), ".", "a#0", " "}
+var keyPool = []string{"", "a", "b", "c", "a.b", "#1", "k\"q", "line\nbreak", "ключ", "😀", strings.Repeat("long", 20), ".", "a#0", " ", "é", "ÿ", "caf\u00e9", "\ufffd"}
 
 func genKeyFromPool(t *rapid.T) string {
 	if oneIn(t, 10, "freshkey") {
@@ -1115,6 +1116,9 @@ func genObjectOp(t *rapid.T) Op {
 // ProgramCase is the case type of C05 and C06.
 type ProgramCase struct {
 	Ops []Op `json:"ops"`
+	// Latin1: at run time every key and string value is re-encoded so that U+0080..U+00FF become
+	// single bytes (Go strings that are not valid UTF-8); the JSON keeps the readable spelling
+	Latin1 bool `json:"latin1,omitempty"`
 }
 
 func genProgram(t *rapid.T, listShare int) *ProgramCase {
@@ -1138,12 +1142,25 @@ func genProgram(t *rapid.T, listShare int) *ProgramCase {
 		minLen = drawInt(t, 26, maxOps, "minlen")
 	}
 	ops := rapid.SliceOfN(opGen, minLen, maxOps).Draw(t, "ops")
-	return &ProgramCase{Ops: ops}
+	return &ProgramCase{Ops: ops, Latin1: oneIn(t, 5, "latin1")}
 }
 
 func runProgram(c *ProgramCase, st *Stats) (*machine, error) {
 	m := newMachine(st)
 	for _, op := range c.Ops {
+		if c.Latin1 {
+			op.Keys = append([]string{}, op.Keys...)
+			for i := range op.Keys {
+				op.Keys[i] = latin1(op.Keys[i])
+				if !utf8.ValidString(op.Keys[i]) {
+					st.Count("key_not_valid_utf8")
+				}
+			}
+			op.Vals = append([]ValSpec{}, op.Vals...)
+			for i := range op.Vals {
+				op.Vals[i].S = latin1(op.Vals[i].S)
+			}
+		}
 		if err := m.Step(op); err != nil {
 			return m, errf("%v\n program so far: %s", err, showOps(c.Ops[:m.step]))
 		}
